@@ -232,7 +232,11 @@ def merge_integration_branches(job, wbranches):
         # The octopus merge makes sure that the merge leaves the development
         # branches self-contained.
         if job.settings.no_octopus:
-            consecutive_merge(wbranch.dst_branch, prev.dst_branch, wbranch)
+            # Merge the integration branch first: it already contains the
+            # previous target (update_integration_branches), so the merge
+            # stays a fast-forward to the commit that was built whenever the
+            # octopus merge would have been one.
+            consecutive_merge(wbranch.dst_branch, wbranch, prev.dst_branch)
         else:
             robust_merge(wbranch.dst_branch, prev.dst_branch, wbranch)
         prev = wbranch
